@@ -56,14 +56,16 @@ Example C04_control_in_list_rejected :   (* for ... { x := [1, if i > 1 { contin
 Proof. vm_compute. reflexivity. Qed.
 
 (* "Every expression adds exactly one value" on the executable VM model (the one compared with the real VM on
-   every run), for the whole scalar expression fragment: executed inside any code object, at any position, on any
+   every run), for the whole scalar expression fragment (variables included: [globals_ok s rho] says slot i holds variable i): executed inside any code object, at any position, on any
    stack [st] with room for it, the code of an expression either stops with an error or continues right after
    its last instruction with the stack [v :: st] - exactly one value on top of an unchanged stack.  (Theorem
    vm_scalar of proofs/VMScalarProofs.v; the statement-level claims above are about the abstract height machine.) *)
 From Coq Require Import ZArith NArith.
 Require Import RV.model.Syntax RV.model.Compiler RV.model.VM RV.model.ScalarFrag RV.proofs.VMScalarProofs.
 Theorem C04_scalar_expression_pushes_one :
-  forall tabs c below frames free defers is_main s e base pre post st,
+  forall tabs c below frames free defers is_main s rho, globals_ok s rho ->
+  forall e base pre post st,
+  wf (List.length rho) e = true ->
   code_instr c = (pre ++ fst (cexp base e) ++ post)%list ->
   (forall i k, nth_error (snd (cexp base e)) i = Some k -> nth (base + i)%nat (code_consts c) (KInt 0%Z) = k) ->
   (below + List.length st + need e <= MAXSTACK)%nat ->
